@@ -41,7 +41,8 @@ Theorem C36_operation_on_missing_entity_is_already_deleted :
 Proof. exact op_on_missing_entity. Qed.
 
 (* ... and for ALL histories: an entity handle that existed (after opsA) and is gone (after opsB) is never issued
-   again (after any opsC), as long as no counter overflowed (class of C35) ... *)
+   again (after any opsC); any_ovf = the u32 participant instance number of the factory has wrapped, i.e. 2^32
+   participants were created ... *)
 Theorem C36_deleted_entity_never_returns :
   forall pr opsA opsB opsC h,
     let fA := fst (frun pr init_factory opsA) in
